@@ -40,14 +40,16 @@ RULE = ("ADMGs with 1-7 nodes (evaluated on SCMs up to 5 nodes in the quick tier
         "through the recursive branch (A is neither C nor T) or through a c-factor routine on a set with >= 2 "
         "variables.")
 ASSUMPTIONS = [
-    "tian_sound / cfactor_lemma*_sound / ancestral_q_sound are proved for the Lean model (Y0.Model.Tian); the tie to tian_id.py is this run's correspondence sampling",
-    "model class of the theorems and of the oracle: discrete variables, positive rational parameters, independent root latents shared only across bidirected edges (Spec/Scm); population tags read the same single-domain model",
-    "a Probability given as Q[T] is required (hypothesis ProbShape) to have exactly T as children and parents disjoint from T: the Lemma-1 branch ignores the children of the expression, so an expression that denotes Q[T] only by numerical coincidence in one model is outside the theorem",
+    "all theorems are about the Lean model Y0.Model.Tian / Y0.Model.TianDsl (tian_id.py after fix 010d659); the tie to the Python is this run's correspondence sampling (structural comparison up to set / multiset order and x*1, x/1; evaluation fall-back on a shared model otherwise)",
+    "model class of the theorems and of the oracle: discrete variables, positive rational parameters, independent root latents shared only across bidirected edges (Y0/Spec/Scm.lean); a population tag reads the same single-domain model; G acyclic (MG.Ranked) and well formed (MG.WF)",
+    "tian_sound / cfactor_lemma1_sound / cfactor_sound carry the hypothesis ProbShape when Q[T] (Q[H]) is given as a bare Probability: it must be P_w(T | Z) with children exactly T, all variables in one un-starred world w, and Z, w disjoint from T (Y0/Spec/TianSpec.lean). The Lemma-1 branch dispatches on the TYPE of the expression and never reads its children, so a Probability that equals Q[T] only by numerical coincidence in one model is outside the theorem; the version with the hypothesis quantified over all compatible models instead of ProbShape is OPEN (see the OPEN block in Props/C17.lean). Sum / Product / Fraction inputs carry no such hypothesis",
+    "starred variables / starred intervention subscripts (+X, counterfactual values) inside a Probability given as Q[T] are outside ProbShape; the harness does not generate them",
     "completeness ('None only when Q[C] is not identifiable from Q[T]') is not part of the property and not claimed",
-    "set iteration order (frozenset of Variables) only affects the order of factors in a Product and of parents in a population-tagged Probability; both are compared as multisets / sets",
+    "set iteration order (frozenset of Variables) only affects the order of factors in a Product and of parents in a population-tagged Probability; both are compared as multisets / sets; Python's sorted() ties are modelled by a stable insertion sort",
+    "graphs whose exact evaluation would need more than ~2e5 latent x observed assignments (dense bidirected parts on 6-7 nodes) are checked by correspondence and for exceptions only, not by evaluation",
 ]
 EXHAUSTIVE = {"quick": False, "thorough": False}
-LEANCHECK_MODULES = ["Y0.Model.Tian", "Y0.Model.TianDsl", "Y0.Props.C17"]
+LEANCHECK_MODULES = ["Y0.Model.Tian", "Y0.Model.TianDsl", "Y0.Lemmas.QFactor", "Y0.Lemmas.TianIdentify", "Y0.Lemmas.TianTotal", "Y0.Props.C17"]
 
 OPS = ["identify", "c_factor", "lemma1", "lemma4", "low_index", "ancestral"]
 
@@ -653,7 +655,26 @@ def finding_key(case, res):
 
 
 MANIFEST = {
-    "text": "TODO",
-    "note": "TODO",
-    "technique": "TODO",
+    "text": ("Proof. Lean theorems about an executable, branch-for-branch model of tian_id.py: tian_sound (for every "
+             "acyclic graph, every topological listing, every C, T, every expression denoting Q[T] and every positive "
+             "semi-Markovian model compatible with the graph, whatever expression identify_district_variables returns "
+             "denotes Q[C] at every assignment; the routine's own validation makes C subset T, T subset topo, single "
+             "district hypotheses unnecessary), tian_total (under Tian-Pearl's preconditions the result is an "
+             "expression or FAIL, never an exception; the recursion strictly shrinks T) with four tian_rejects_* "
+             "theorems characterising the validation errors, cfactor_lemma1_sound / cfactor_lemma4_sound / "
+             "cfactor_sound (Lemma 1 incl. population-tagged and interventional probabilities, Lemma 4, and the "
+             "type dispatch), ancestral_q_sound (Lemma 3), lowindex_sound (Eq. 72). They rest on the c-factor algebra "
+             "(sink/split/ratio, Lemmas/QFactor) and on single-world probability calculus for M.env G. The model is "
+             "tied to the code on every run by differential correspondence on generated and corpus inputs, and an "
+             "exact-rational SCM oracle (Q[C] as the distribution under do(V\\C)) evaluates every returned "
+             "expression at every assignment; that oracle found the defect fixed in 010d659 (Lemma 1 dropped "
+             "intervention subscripts). One clause is narrower than the property: a bare Probability given as Q[T] must "
+             "have the shape P_w(T | Z) (hypothesis ProbShape)."),
+    "note": ("Trusted: Lean kernel; axioms propext/Classical.choice/Quot.sound; the specifications Y0/Spec/{Prob,Sem,Scm,"
+             "TianSpec}.lean (model class: discrete, positive, independent root latents); the hand-written model of "
+             "tian_id.py and of the dsl.py constructors it uses, tied to the code by sampling; networkx/sorted/frozenset "
+             "behaviour is modelled. Not claimed: completeness of FAIL, starred (counterfactual-value) variables inside "
+             "the given probability, models with latents that have parents."),
+    "technique": ("Lean 4 theorems (induction on the IDENTIFY recursion; finite-sum algebra; Tian-Pearl Lemmas 1, 3, 4 "
+                  "mechanised) + differential correspondence with the real tian_id.py + exact-rational SCM oracle"),
 }
